@@ -11,6 +11,9 @@ CONSTANTS
   Sym = TRUE
   NCallers = 2
   Removal = "abort"
+  MaxTwice = 0
+  SetRace = "unlocked"
+  Pick = 0
   Emit = "all"
 INVARIANTS R6ok
 VIEW View
